@@ -483,24 +483,26 @@ type ctxRun struct {
 	PollsAfter int    `json:"polls_after"` // polls made after the first one that reported done
 	WorkAfter  int    `json:"work_after"`  // cursor (parser) / byte offset (tokenizer) advance after that poll
 	Panic      string `json:"panic,omitempty"`
-	ReuseSame  bool   `json:"reuse_same"`  // same instance, same input, uncancelled afterwards = uncancelled result
-	ProbeSame  bool   `json:"probe_same"`  // same instance, probe input = fresh-instance result
-	StateClean bool   `json:"state_clean"` // parser: no context kept, depth 0
+	ReuseSame  bool   `json:"reuse_same"`         // same instance, same input, uncancelled afterwards = uncancelled result
+	ProbeSame  bool   `json:"probe_same"`         // same instance, probe input = fresh-instance result
+	StateClean bool   `json:"state_clean"`        // parser: no context kept, depth 0
 	PoolDup    string `json:"pool_dup,omitempty"` // a pool hands one object to two holders after this call (released twice)
-	Result     string `json:"result"`      // hash of trees/tokens when a result came back
+	Result     string `json:"result"`             // hash of trees/tokens when a result came back
 }
 
 type ctxEP struct {
-	Name      string   `json:"name"`
-	Polls     int      `json:"polls"`
-	PollWork  []int    `json:"poll_work,omitempty"` // cursor / byte offset at each poll of the uncancelled run
-	TotalWork int      `json:"total_work"`
-	MaxGap    int      `json:"max_gap"`
-	FreeSame  bool     `json:"free_same"` // uncancelled run under the counting context = context-free call
-	FreeOK    bool     `json:"free_ok"`   // the context-free call succeeded
-	FreeRes   string   `json:"free_res"`
-	Runs      []ctxRun `json:"runs"`
-	Skipped   string   `json:"skipped,omitempty"`
+	Name           string   `json:"name"`
+	Polls          int      `json:"polls"`
+	PollWork       []int    `json:"poll_work,omitempty"` // cursor / byte offset at each poll of the uncancelled run
+	TotalWork      int      `json:"total_work"`
+	MaxGap         int      `json:"max_gap"`
+	FreeSame       bool     `json:"free_same"` // uncancelled run under the counting context = context-free call
+	FreeOK         bool     `json:"free_ok"`   // the context-free call succeeded
+	FreeRes        string   `json:"free_res"`
+	LateCancelRan  bool     `json:"late_cancel_ran,omitempty"`
+	LateCancelSame bool     `json:"late_cancel_same"` // context cancelled after the call returned: later context-free calls unaffected
+	Runs           []ctxRun `json:"runs"`
+	Skipped        string   `json:"skipped,omitempty"`
 }
 
 type ctxOut struct {
@@ -653,6 +655,20 @@ func ctxSweepOne(id, sql string, maxK int) ctxOut {
 		probeToks, _ := probeTk.Tokenize([]byte(probeSQL))
 		pa, pe := parser.NewParser().ParseFromModelTokens(probeToks)
 		probeWant := resHash(pa, pe)
+		// a context that fires only AFTER the call has returned (the usual `defer cancel()`): whatever the call
+		// returned (a tree or a syntax error), the parser must not keep the context, so later context-free calls on
+		// the same instance behave like calls on a new one
+		{
+			lp := parser.NewParser()
+			lctx, lcancel := context.WithCancel(context.Background())
+			_, _ = lp.ParseContextFromModelTokens(lctx, toks)
+			lcancel()
+			a5, e5 := lp.ParseFromModelTokens(probeToks)
+			ep.LateCancelSame = resHash(a5, e5) == probeWant
+			a6, e6 := lp.ParseFromModelTokens(toks)
+			ep.LateCancelSame = ep.LateCancelSame && resHash(a6, e6) == free
+			ep.LateCancelRan = true
+		}
 		for k := 0; k < cc.polls && k < maxK; k++ {
 			for _, kd := range ctxKinds {
 				r := ctxRun{K: k, Kind: kd.name}
